@@ -63,6 +63,18 @@ func (subsDom) Gen(r *gen.R, tier string, emit func(string)) {
 			}
 		}
 	}
+	// the same on a service that has been served once before, when it had a get handler only
+	for _, n := range names {
+		for _, k := range kinds {
+			for _, own := range [][2][]string{{{"nil"}, {"nil"}}, {{"nil"}, {"1", "a.>"}}, {{"1", "a.b"}, {"nil"}}} {
+				args := []string{"serve2", n, k, "", "R"}
+				args = append(args, own[0]...)
+				args = append(args, "A")
+				args = append(args, own[1]...)
+				emit(wire.Line(args...))
+			}
+		}
+	}
 	// explicit lists, exhaustive for <= 2 entries over a small alphabet (quick), <= 3 (thorough)
 	small := []string{"a", "a.b", "a.*", "a.>", ">", "a.b.>"}
 	maxk := 2
@@ -172,7 +184,7 @@ func (subsDom) Exec(a []string) string {
 		return Safe(func() string { return subsReconnect(a[1] == "T") })
 	}
 	return Safe(func() string {
-		if len(a) < 5 || a[0] != "serve" || a[4] != "R" {
+		if len(a) < 5 || (a[0] != "serve" && a[0] != "serve2") || a[4] != "R" {
 			return "bad-op"
 		}
 		name, kinds, queue := a[1], a[2], a[3]
@@ -183,6 +195,28 @@ func (subsDom) Exec(a []string) string {
 		al, anil, _ := parseListArg(rest[1:])
 		s := res.NewService(name)
 		s.SetLogger(nopLogger{})
+		if a[0] == "serve2" {
+			// an earlier run of the same service, with nothing but a get handler
+			s.Handle("early", res.GetResource(func(r res.GetRequest) { r.NotFound() }))
+			c0 := recconn.New()
+			served0 := make(chan struct{})
+			s.SetOnServe(func(*res.Service) { close(served0) })
+			done0 := make(chan error, 1)
+			go func() { done0 <- s.Serve(c0) }()
+			select {
+			case <-served0:
+			case <-done0:
+				return "err-first-run"
+			case <-time.After(5 * time.Second):
+				return "hang-first-run"
+			}
+			s.Shutdown()
+			select {
+			case <-done0:
+			case <-time.After(5 * time.Second):
+				return "hang-first-shutdown"
+			}
+		}
 		var opts []res.Option
 		for _, k := range kinds {
 			switch k {
